@@ -39,6 +39,7 @@ def check(case: Dict[str, Any]) -> Outcome:
     out = Outcome()
     n = case["n"]
     timeouts = [t / 100.0 for t in case["timeouts"]]
+    starts = [t / 100.0 for t in case.get("starts", [0] * n)]  # callers may join later (staggered lifetimes)
     answers: List[List[int]] = case["answers"]  # [t_cs, caller]
     notifs: List[int] = case.get("notifs", [])  # instants (cs)
     err_for = set(case.get("errors", []))
@@ -61,6 +62,8 @@ def check(case: Dict[str, Any]) -> Outcome:
         async def one(i: int):
             loop = asyncio.get_running_loop()
             try:
+                if starts[i] > 0:
+                    await asyncio.sleep(starts[i])
                 v = await send_message(r, w, f"m/{i}", {"i": i}, timeout=timeouts[i], message_id=f"c{i}")
                 results[i] = ("return", v, loop.time())
             except BaseException as e:  # noqa
@@ -73,7 +76,7 @@ def check(case: Dict[str, Any]) -> Outcome:
             t.set_name(f"caller{i}")
         await asyncio.gather(*tasks, return_exceptions=True)
 
-    res = drive(call, schedule, wait_first_write=True, max_vtime=max(timeouts) + 20)
+    res = drive(call, schedule, wait_first_write=True, max_vtime=max(starts) + max(timeouts) + 20)
 
     first_answer_for: Dict[int, Tuple[float, int]] = {}
     for k, (t, i) in enumerate(answers):
@@ -87,7 +90,7 @@ def check(case: Dict[str, Any]) -> Outcome:
     if len(ts) >= 2:
         between = any(ts[0] <= x <= ts[-1] for x in notifs)
     out.nontrivial = out_of_order or between
-    out.classes = (f"n:{n}", "out-of-order" if out_of_order else "in-order", "notif-between" if between else "no-notif-between")
+    out.classes = (f"n:{n}", "out-of-order" if out_of_order else "in-order", "notif-between" if between else "no-notif-between") + (("staggered-starts",) if any(starts) else ())
 
     # who dequeued what
     dequeued_by: Dict[str, List[str]] = {}
@@ -113,7 +116,9 @@ def check(case: Dict[str, Any]) -> Outcome:
             continue
         kind, val, t_end = o
         fa = first_answer_for.get(i)
-        T = timeouts[i]
+        T = starts[i] + timeouts[i]
+        if fa is not None and fa[0] <= starts[i] + 1e-9:
+            continue  # answered before the request was even sent: outside the property
         # ---- (a) cross-talk
         if kind == "return":
             if not (isinstance(val, dict) and val.get("for") == f"c{i}"):
@@ -169,8 +174,17 @@ def job_exhaustive(col: Collector, seed: int, tier: str, shard: int, nshards: in
                         notifs = [ts[0], ts[-1] - 1 if ts[-1] > ts[0] else ts[0]]
                     case = {"n": n, "timeouts": [200] * n, "answers": answers, "notifs": notifs}
                     col.record(case, check(case))
+    # staggered lifetimes: caller 2 joins at t=0.30 after an earlier caller may have completed
+    for perm in itertools.permutations(range(3)):
+        for inst in itertools.product([10, 20, 40, 60, 90], repeat=3):
+            i += 1
+            if i % nshards != shard:
+                continue
+            answers = [[max(inst[k], 32) if perm[k] == 2 else inst[k], perm[k]] for k in range(3)]
+            case = {"n": 3, "timeouts": [200, 200, 200], "starts": [0, 0, 30], "answers": answers, "notifs": []}
+            col.record(case, check(case))
     if shard == 0:
-        col.exhaustive_parts.append("n in {2,3}: all answer permutations x instants {0.10,0.49,0.50,0.51,0.90}^n x 3 notification patterns, timeouts 2.0 s")
+        col.exhaustive_parts.append("n in {2,3}: all answer permutations x instants {0.10,0.49,0.50,0.51,0.90}^n x 3 notification patterns, timeouts 2.0 s; plus 3 callers with the third joining at t=0.30: all permutations x 5^3 instants")
 
 
 @st.composite
@@ -182,7 +196,13 @@ def cases(draw):
     answers = [[draw(tgrid), i] for i in perm if draw(st.integers(0, 9)) > 0]
     notifs = draw(st.lists(tgrid, max_size=2))
     errors = [i for i in range(n) if draw(st.integers(0, 4)) == 0]
-    return {"n": n, "timeouts": timeouts, "answers": answers, "notifs": notifs, "errors": errors}
+    case = {"n": n, "timeouts": timeouts, "answers": answers, "notifs": notifs, "errors": errors}
+    if draw(st.booleans()):
+        starts = [0] + [draw(st.sampled_from([0, 0, 15, 30, 55, 80])) for _ in range(n - 1)]
+        case["starts"] = starts
+        # an answer is only meaningful after its request was sent
+        case["answers"] = [[max(t, starts[i] + 2), i] for t, i in answers]
+    return case
 
 
 def job_hyp(col: Collector, seed: int, tier: str, shard: int, n: int) -> None:
